@@ -652,7 +652,7 @@ Proof.
   - (* Atomic *)
     cbn [run_seg] in Hrun. destruct (f (w_e w) (w_s w)) as [[[e1 s1] a]|] eqn:Hfa.
     + destruct Hinv as (Hn & Hcur & Hr).
-      destruct (Hf _ _ _ _ _ Hr Hfa) as (F1 & F2 & F3 & _ & _ & _ & _ & _ & _ & F10).
+      destruct (Hf _ _ _ _ _ Hr Hfa) as (F1 & F2 & F3 & _ & _ & _ & _ & _ & _ & F10 & _).
       apply (seg_concl_step _ (run_seg replay ms (k a) (mkWorld e1 s1 (w_conts w) (w_trace w)))
                w (mkWorld e1 s1 (w_conts w) (w_trace w)) w' se []).
       * cbn. unfold eff, pending. rewrite F2, F3. reflexivity.
@@ -1225,7 +1225,7 @@ Proof.
   - cbn in Hrun. injection Hrun as <- <- <-. split; [exact Hr|reflexivity].
   - cbn in Hrun. injection Hrun as <- <- <-. split; [exact Hr|reflexivity].
   - cbn [run_seg] in Hrun. destruct (f (w_e w) (w_s w)) as [[[e1 s1] a]|] eqn:Hfa.
-    + destruct (Hf _ _ _ _ _ Hr Hfa) as (F1 & F2 & F3 & _ & _ & _ & _ & _ & _ & F10).
+    + destruct (Hf _ _ _ _ _ Hr Hfa) as (F1 & F2 & F3 & _ & _ & _ & _ & _ & _ & F10 & _).
       destruct ((fun H => IH a _ _ _ _ _ H Hrun) F10) as [Hr' Hb].
       split; [exact Hr'|].
       unfold bal in *. cbn [w_e w_trace] in Hb. rewrite F3 in Hb. exact Hb.
